@@ -388,7 +388,7 @@ def check_reported_names(ck, prog, fn, lister_quals, legacy):
             t = find_tag(v)
             tag = 'SER=' if case == 'ser' else 'SNR='
             ok = t is not None and t[0] == tag and t[1] == len(tag) and \
-                t[2] == ("find(' LOCAT')" if case == 'ser' else 'len')
+                t[2] in (("find(' LOCAT')",) if case == 'ser' else ('len', 'end'))
             msg = 'reports %r for a board identified by its %s tag; expected the text after the ' \
                   'tag (tag, skipped, end) = %s' % (v, tag, t)
         else:
